@@ -99,7 +99,10 @@ def sequential_part(R, n_graphs):
                     R.violation(f"{what}(N{r}) raises RecursionError", dict(source=src, graph=g, roots=roots))
                 except Exception as e:
                     R.violation(f"{what}(N{r}) raises {type(e).__name__}: {e}", dict(source=src, graph=g, roots=roots))
-        real = {classes.index(tp): b for (tp, conv), b in recursion_cache(checker).items() if conv is None and tp in classes}
+        import inspect
+        # keyed by the default conversion as well since fix 709dee9
+        extra = (dconv,) if len(inspect.signature(recursion_cache).parameters) > 1 else ()
+        real = {classes.index(tp): b for (tp, conv), b in recursion_cache(checker, *extra).items() if conv is None and tp in classes}
         R.note_case((len(g), sum(map(len, g)), tuple(roots), tuple(sorted(real.items()))),
                     sample=dict(graph=g, roots=roots, cache=sorted(real.items())))
         R.count(f"nodes:{len(g)}")
